@@ -52,6 +52,20 @@ def roots(tier, seed):
                                                    callback={"sig": "xk", "behav": "passive"})
                         case["explore"] = 0
                         out.append(case)
+    # targets at or above the barrier value 2^100: a NaN / infinite / huge objective value (replaced by the barrier
+    # inside the solver) is not an event "target reached"
+    for n in ns:
+        for pats in [("free",) * n, ("wide",) * n]:
+            for target in [alpha.INF, 2.0 ** 100, 1e40]:
+                for cons in ["none", "ball_le"]:
+                    for alt in ["huge", "nan", "pinf"]:
+                        for k in (0, 1, 2 * n + 1, 2 * n + 2):
+                            c = alpha.base_case(n, pats, "in", "quad", cons, options={"target": target, "maxfev": 30})
+                            c["dev"] = [["obj", kk, alt] for kk in range(k + 1)]
+                            c["tag"]["special"] = "target-at-barrier"
+                            c["cover"] = True
+                            c["explore"] = 0
+                            out.append(c)
     out += ctrl.roots(tier, deep=False)
     from .. import cover
     for c in cover.roots_for(tier):
